@@ -44,19 +44,31 @@ def _sig_rangetoken(rep):
     return any('RangeTokenMap::getRange' in f for s in rep['stacks'][:2] for f in s) and \
            all(any(('RangeTokenMap::getRange' in f) or ('RangeFactory' in f and 'buildRanges' in f) for f in s) for s in rep['stacks'][:2])
 
+def _sig_casei(rep):
+    # shared category tokens cache their case-insensitive variant lazily and unsynchronised (and it is owned by whichever regex came first)
+    return any('RangeToken::getCaseInsensitiveToken' in f or 'RangeToken::~RangeToken' in f for s in rep['stacks'][:2] for f in s[:3])
+
 KNOWN = {
     'C17-iskidok-lazy-table': dict(sig=_sig_kidok, warm='kidok', facs=('kidOK',),
         what='data race on the lazily filled function-local static int kidOK[14] in DOMDocumentImpl::isKidOK when two threads do their first DOM insert concurrently'),
-    'C17-rangetokenmap-dcl': dict(sig=_sig_rangetoken, warm='rangetoken', facs=('rangetoken:unicode', 'rangetoken:block', 'rangetoken:xml'),
-        what='RangeTokenMap::getRange reads the category token outside fMutex (double-checked locking) while another thread builds the ranges'),
+    'C17-rangetokenmap-dcl': dict(sig=_sig_rangetoken, warm='rangetoken', facs=('rangetoken:complement',),
+        what='RangeTokenMap::getRange reads the category token outside fMutex (double-checked locking) while another thread creates a lazily built complement'),
+    # no warm-up possible (the cached token dies with the regex that created it): the generator never combines option "i" with
+    # category escapes / shorthands while this id is active
+    'C17-rangetoken-casei-cache': dict(sig=_sig_casei, warm=None, facs=(),
+        what='RangeToken::getCaseInsensitiveToken caches a token owned by the calling regex in the process-wide category token without synchronisation (data race; use-after-free once that regex is destroyed)'),
 }
 ACTIVE = [
     'C17-iskidok-lazy-table',
     'C17-rangetokenmap-dcl',
+    'C17-rangetoken-casei-cache',
 ]
+WARMABLE = [k for k in ACTIVE if KNOWN[k]['warm']]
 
 CATS = ['L', 'Lu', 'Ll', 'Lo', 'M', 'N', 'Nd', 'P', 'Pd', 'S', 'Sm', 'Z', 'Zs', 'C',
-        'IsBasicLatin', 'IsLatin-1Supplement', 'IsGreek', 'IsCyrillic', 'IsHebrew', 'IsHiragana', 'IsCJKUnifiedIdeographs', 'IsGeneralPunctuation']
+        'IsBasicLatin', 'IsLatin-1Supplement', 'IsGreek', 'IsCyrillic', 'IsHebrew', 'IsHiragana', 'IsCJKUnifiedIdeographs', 'IsGeneralPunctuation',
+        # categories whose complement no RangeFactory pre-builds (created lazily in RangeTokenMap::getRange)
+        'ALL', 'IsAlpha', 'IsAlnum', 'ASSIGNED', 'IsWord', 'IsSpace', 'ascii:isAscii', 'ascii:isDigit', 'ascii:isWord', 'ascii:isSpace', 'ascii:isXDigit']
 
 TSAN_BASE = 'second_deadlock_stack=1 exitcode=66 history_size=3 report_signal_unsafe=0 external_symbolizer_path=/usr/bin/llvm-symbolizer'
 WATCHDOG_S = 90
@@ -121,7 +133,7 @@ POOLS = {'xsd': {'pool.xsd': POOL_XSD.replace('@PAT@', '[A-Z]{2}[0-9]+')},
 
 def case_bytes(case):
     top = {'n': len(case['threads']), 'seed': str(case['seed']), 'perturb': case['perturb'],
-           'prewarm': ','.join(KNOWN[k]['warm'] for k in case.get('prewarm', []) if k in KNOWN), 'warmcats': ','.join(CATS)}
+           'prewarm': ','.join(KNOWN[k]['warm'] for k in case.get('prewarm', []) if k in KNOWN and KNOWN[k]['warm']), 'warmcats': ','.join(CATS)}
     if case.get('dump'): top['dump'] = 1
     if case.get('pool'):
         for name, text in POOLS[case['pool']].items(): top[name] = text
@@ -207,6 +219,11 @@ def run_once(case, halt=True):
             if kid: res['known'].append(kid); continue
             problems.append('ThreadSanitizer: %s\n%s' % (rep['kind'], rep['text']))
     rc = p.returncode
+    if res['known'] and problems:
+        # a known race fired in this (not warmed-up) run: further reports / effects in the same run may be consequences of it
+        # (e.g. reads of the token published through the racy pointer); the warmed-up cases search behind the finding
+        res['shadowed'] = len(problems); problems = []
+        res['status'] = 'ok'; return res
     if summary is not None and not summary['digests_equal']:
         problems.append('per-thread results differ from the single-threaded re-run: ' + summary.get('mismatch', ''))
     if summary is None:
@@ -224,7 +241,7 @@ def run_once(case, halt=True):
 
 def run_case(case, attempts=1):
     """Run up to `attempts` times; the first failing run decides.  Hangs: replay 3x, violation only if 3/3 hang."""
-    halt = not [k for k in ACTIVE if k not in case.get('prewarm', [])]     # known reports expected -> do not stop at the first one
+    halt = not [k for k in WARMABLE if k not in case.get('prewarm', [])]     # known reports expected -> do not stop at the first one
     last = None
     for a in range(attempts):
         r = run_once(case, halt)
@@ -352,10 +369,15 @@ def dom_item(draw):
     prog.append(['ser', draw(st.integers(0, 2))])
     return {'k': 'dom', 'core': int(draw(st.booleans())), 'prog': prog}
 
+_SHARED_TOKEN = re.compile(r'\\[pPwWdDsSiIcC]')
 @st.composite
 def regex_item(draw):
-    return {'k': 'regex', 'pat': draw(pattern()), 'opt': draw(st.sampled_from(['', '', 'X', 'i', 'iX'])),
-            'inputs': draw(st.lists(st.sampled_from(TEXTS), min_size=1, max_size=5))}
+    pat = draw(pattern()); opt = draw(st.sampled_from(['', '', 'X', 'i', 'iX']))
+    it = {'k': 'regex', 'pat': pat, 'opt': opt, 'inputs': draw(st.lists(st.sampled_from(TEXTS), min_size=1, max_size=5))}
+    if 'i' in opt and 'C17-rangetoken-casei-cache' in ACTIVE and _SHARED_TOKEN.search(pat):
+        # excluded by construction (known finding): case-insensitive matching on process-wide category tokens
+        it['opt'] = opt.replace('i', ''); it['excluded'] = 'C17-rangetoken-casei-cache'
+    return it
 
 ENCS = ['', '', '', 'UTF-8', 'UTF-16LE', 'ISO-8859-1', 'windows-1252', 'US-ASCII', 'Shift_JIS', 'koi8-r', 'ibm037', 'GB2312', 'UTF-32BE', 'ibm1140']
 @st.composite
@@ -390,11 +412,11 @@ def case_strategy(draw, tier='quick'):
             'flavour': 'asan' if draw(st.integers(0, 5)) == 0 else 'tsan'}
     # step over active known findings in 7 of 8 cases; the remaining ones keep measuring that the finding is still there
     cold = draw(st.integers(0, 7)) == 0
-    case['prewarm'] = [] if cold else list(ACTIVE)
+    case['prewarm'] = [] if cold else list(WARMABLE)
     return case
 
 # ---------------------------------------------------------------------------------------------------------------
-LAZY = ('rangetoken:unicode', 'rangetoken:block', 'rangetoken:xml', 'kidOK', 'domimpl-registry', 'doctype-ownerless', 'lcp', 'transservice',
+LAZY = ('rangetoken:complement', 'kidOK', 'domimpl-registry', 'doctype-ownerless', 'lcp', 'transservice',
         'uripool', 'shared-pool', 'scanner-id', 'msgload')
 
 def labels_of(case, summary):
@@ -428,6 +450,9 @@ def worker(ctx):
         if case.get('flavour') == 'asan': st_.extra['asan_cases'] += 1
         for kid in set(r['known']):
             st_.extra['known_reports'][kid] = st_.extra['known_reports'].get(kid, 0) + 1
+        nx = sum(1 for t in case['threads'] for it in t if it.get('excluded') == 'C17-rangetoken-casei-cache')
+        if nx: st_.excluded_known['C17-rangetoken-casei-cache'] += nx
+        if r.get('shadowed'): st_.extra['shadowed_by_known'] = st_.extra.get('shadowed_by_known', 0) + r['shadowed']
         for kid in case.get('prewarm', []):
             # the input class of the finding (>=2 threads first-using the racy facility) was present and stepped over by the warm-up
             if r['summary'] and any(r['summary']['facilities'].get(f, 0) >= 2 for f in KNOWN[kid]['facs']):
@@ -446,7 +471,6 @@ def replay(case, ctx):
         if kid not in KNOWN: return True, 'unknown finding id'
         for _ in range(6):
             r = run_once(case, halt=False)
-            if any(KNOWN[kid]['sig'](rep) for rep in []): pass
             if kid in r['known'] or (kid not in ACTIVE and r['status'] == 'fail'):
                 return False, 'KNOWN %s still present: %s' % (kid, KNOWN[kid]['what'])
         return True, 'finding %s no longer reproduces' % kid
